@@ -81,6 +81,7 @@ impl log4rs::verif::Hooks for Dispatcher {
         }
     }
     fn thread_create(&self) -> usize {
+        LIVE_SPAWNED.fetch_add(1, std::sync::atomic::Ordering::SeqCst);
         let a = AGENT.with(|a| a.borrow().clone());
         match a.and_then(|a| a.create_child()) {
             Some(child) => {
@@ -105,6 +106,7 @@ impl log4rs::verif::Hooks for Dispatcher {
         }
     }
     fn thread_end(&self, token: usize) {
+        LIVE_SPAWNED.fetch_sub(1, std::sync::atomic::Ordering::SeqCst);
         if token == usize::MAX {
             return;
         }
@@ -126,6 +128,15 @@ impl log4rs::verif::Hooks for Dispatcher {
 }
 
 static INSTALL: Once = Once::new();
+
+/// threads spawned by the library (through the shimmed `thread::spawn`) that have not finished yet
+static LIVE_SPAWNED: std::sync::atomic::AtomicUsize = std::sync::atomic::AtomicUsize::new(0);
+
+/// number of library-spawned threads still running (background rotations); needs the hooks installed
+/// before the spawning call
+pub fn live_spawned_threads() -> usize {
+    LIVE_SPAWNED.load(std::sync::atomic::Ordering::SeqCst)
+}
 
 pub fn ensure_installed() {
     INSTALL.call_once(|| log4rs::verif::set_hooks(Some(Arc::new(Dispatcher))));
